@@ -28,9 +28,11 @@ pub(crate) mod kani_tab {
     fn row_facts(lo: usize, hi: usize) {
         let mut idx = lo;
         while idx < hi {
-            let (kp, _j, s, h, w) = SYSTEMATIC_INDICES_AND_PARAMETERS[idx];
+            let (kp, j, s, h, w) = SYSTEMATIC_INDICES_AND_PARAMETERS[idx];
             let (kp1, p1) = P1_TABLE[idx];
             assert!(kp1 == kp, "C15 P1 table keyed by the same K'");
+            assert!(j <= 1000, "C15 J(K') <= 1000 (precondition under which the tuple generator is proved)");
+            assert!((w - s) / s + 1 < s, "C15 a = 1 + floor(i/S) < S for every i < B: the three LDPC positions of a column are distinct");
             if idx > 0 {
                 assert!(SYSTEMATIC_INDICES_AND_PARAMETERS[idx - 1].0 < kp, "C15 K' strictly increasing");
             }
